@@ -25,6 +25,8 @@ def run(ctx, report):
     report.section("DFXP fallback", dfxp_fallback, ctx, report)
     report.section("WebVTT lang option", webvtt_lang, ctx, report)
     report.section("SAMI neighbours", sami_neighbours, ctx, report)
+    report.section("argument order", argument_order, ctx, report)
+    report.section("label stores", label_stores, ctx, report)
     report.not_decided += ["SAMI: placement of secondary-language paragraphs into <sync> blocks and the non-decreasing "
                            "order of blocks for arbitrary interleavings (value dependent)",
                            "SAMI writer: a paragraph is labelled with the caption's class when the stylesheet gives that "
@@ -217,3 +219,76 @@ def sami_neighbours(ctx, report):
                  "a new sync goes right after the LAST earlier sync, else right before the FIRST later one",
                  {"documents_folded": n, "mismatches": bad[:3],
                   "why": "any other position puts a sync out of time order: players show the cue at the wrong moment"}, "5")
+
+
+def argument_order(ctx, report):
+    """Language labels are handed from routine to routine by position.  For every in-package call in
+    the readers and writers whose positional arguments are plain names that are ALSO parameter names
+    of the callee, each such argument must sit at the position of the parameter of that name
+    (a swapped `lang` / `primary` pair changes which language a cue is labelled with)."""
+    from ..core.astutil import resolve_callee
+    n_calls, bad = 0, []
+    for mod in ctx.index.modules.values():
+        fns = list(mod.functions.values()) + [m for c in mod.classes.values() for m in c.methods.values()]
+        for fn in fns:
+            for c in walk_no_nested(fn.node):
+                if not isinstance(c, ast.Call) or not c.args:
+                    continue
+                h = resolve_callee(ctx.index, fn, c)
+                if h is None:
+                    continue
+                ps = [a.arg for a in h.node.args.posonlyargs + h.node.args.args]
+                if h.kind in ("method", "classmethod", "property") and isinstance(c.func, ast.Attribute):
+                    ps = ps[1:]
+                names = [a.id if isinstance(a, ast.Name) else None for a in c.args]
+                shared = [nm for nm in names if nm is not None and nm in ps]
+                if len(shared) < 2:
+                    continue
+                n_calls += 1
+                wrong = [(nm, names.index(nm), ps.index(nm)) for nm in shared if names.index(nm) != ps.index(nm)]
+                # a genuine swap: two names exchanged
+                if len(wrong) >= 2 and {w[1] for w in wrong} == {w[2] for w in wrong}:
+                    bad.append({"call": f"{fn.qualname}: {short(c, 90)}", "callee_parameters": ps,
+                                "misplaced": [f"{nm} passed at position {i} but named parameter {j}" for nm, i, j in wrong]})
+    if n_calls < 5:
+        raise AnalysisError(f"argument order: only {n_calls} calls with name-matching arguments found")
+    report.check(not bad, "R-ARG-ORDER", ("pycaption/__init__.py", "<package>"),
+                 "arguments that carry a parameter's name are passed at that parameter's position",
+                 {"calls_examined": n_calls, "swapped": bad[:3]}, "2")
+
+
+def label_stores(ctx, report):
+    """Every language keeps its label: the DFXP writers store xml:lang on every div unconditionally;
+    the SAMI parser lists a language only when a paragraph of that language is met."""
+    from ..core.astutil import enclosing_conjuncts
+    for path, q in (("pycaption/dfxp/base.py", "DFXPWriter.write"), ("pycaption/dfxp/extras.py", "LegacyDFXPWriter.write")):
+        fn = ctx.index.get_function(path, q, inline=True, keep=("_relativize_and_fit_to_screen",))
+        report.covered(fn)
+        stores = [n for n in walk_no_nested(fn.node) if isinstance(n, ast.Assign) and isinstance(n.targets[0], ast.Subscript)
+                  and isinstance(n.targets[0].slice, ast.Constant) and n.targets[0].slice.value == "xml:lang"
+                  and any(isinstance(lp, ast.For) and any(x is n for x in walk_no_nested(lp)) for lp in walk_no_nested(fn.node))]
+        if len(stores) != 1:
+            raise AnalysisError(f"{q}: store of xml:lang on the language's div not unique ({len(stores)})")
+        guards = enclosing_conjuncts(fn, stores[0]) or []
+        report.check(not guards, "R-LABEL", (fn, stores[0]), "every div carries the xml:lang of its language (unconditionally)",
+                     {"only_under": guards,
+                      "why": None if not guards else "a div without xml:lang is read back under the document's default language"}, "2")
+    pcls = ctx.index.get_class("pycaption/sami.py", "SAMIParser")
+    writers = []
+    for name, m in pcls.methods.items():
+        for n in walk_no_nested(m.node):
+            if isinstance(n, ast.Call) and isinstance(n.func, ast.Attribute) and src(n.func.value) == "self.langs" \
+                    and n.func.attr in ("append", "add", "insert", "extend", "update"):
+                writers.append(name)
+    helpers = {"handle_starttag"}
+    # helpers called only from handle_starttag are fine
+    hs = pcls.find_method("handle_starttag")
+    if hs is not None:
+        from ..core.astutil import closure
+        helpers |= {f.name for f in closure(ctx.index, hs)}
+    extra = sorted(set(writers) - helpers)
+    if not writers:
+        raise AnalysisError("SAMIParser: no routine adds to self.langs")
+    report.check(not extra, "R-WHO-WRITES", ("pycaption/sami.py", "SAMIParser"),
+                 "a language is listed only when a paragraph of that language is met (order of first appearance)",
+                 {"routines_adding_languages": sorted(set(writers)), "unexpected": extra}, "1")
